@@ -199,6 +199,23 @@ def family_D(tier):
                             (d, (k3, 2), [])], ringbonds=[(3, 'any', 0)])      # square
 
 
+BONDS_CONSTRAINT = ['ring', 'nonring', 'strong', 'partial']
+
+
+def family_D2():
+    """3-atom topologies whose bonds all carry a bond CONSTRAINT (the kinds
+    that are written as an unspecified query bond plus a constraint), in every
+    combination - two constraints of different kinds in one fragment."""
+    K = BONDS_CONSTRAINT
+    for a, b, c in itertools.product(ATOMS4, repeat=3):
+        for k1, k2 in itertools.product(K, repeat=2):
+            yield frag([(a, None, []), (b, (k1, 0), []), (c, (k2, 1), [])])
+            yield frag([(a, None, []), (b, (k1, 0), []), (c, (k2, 0), [])])
+            for k3 in K:
+                yield frag([(a, None, []), (b, (k1, 0), []), (c, (k2, 1), [])],
+                           ringbonds=[(2, k3, 0)])
+
+
 def family_E():
     bodies = [[(spec(None, 'C', '?'), None, [])],
               [(spec(None, '$', '?'), None, []),
